@@ -75,6 +75,8 @@ def gen_history(r: random.Random) -> list[str]:
             h.append(f"CREATE TABLE T{ntab} (ID INT, NAME VARCHAR({r.choice([5, 20, 255])}), N NUMBER(10,2)) COMMENT = 'table {ntab}'")
         elif x < 0.35:
             h.append(f"INSERT INTO T{r.randint(1, ntab)} (ID) VALUES ({r.randint(10, 99)})")
+        elif x < 0.39:
+            h.append(f"#WRITE_PANDAS T1 {r.randint(1000, 9000)} {r.choice([2, 3, 100])}")  # table, first id, chunk_size
         elif x < 0.43:
             h.append(f"UPDATE T1 SET S = 'u{r.randint(0, 9)}' WHERE ID = {r.randint(1, 3)}")
         elif x < 0.48:
@@ -109,6 +111,7 @@ def gen_cases(tier: str, seed: int):
     n = 12 if tier == "quick" else 150
     # two fixed shapes on every run: the process ends (in every exit mode / at every kill point) inside an open transaction
     # that changed rows and metadata; once with the connection used as a context manager
+    yield {"kind": "two_sessions"}
     open_txn = ["CREATE TABLE T1 (ID INT, S VARCHAR(10)) COMMENT = 'first'", "INSERT INTO T1 VALUES (1, 'a'), (2, 'b')",
                 "CREATE TABLE T2 (ID INT, NAME VARCHAR(20)) COMMENT = 'all orders'", "INSERT INTO T2 VALUES (1, 'x')", "BEGIN",
                 "UPDATE T1 SET S = 'moved' WHERE ID = 1", "INSERT INTO T1 (ID, S) VALUES (500, 'tx')", "COMMENT ON TABLE T2 IS 'in txn'",
@@ -184,7 +187,16 @@ def _child_run(case_dir: str, db_dir: str, history: list[str], mode: str, kill_a
         for i, stmt in enumerate(history):
             c0 = calls["n"]
             calls["armed"] = True
-            cur.execute(stmt)
+            if stmt.startswith("#WRITE_PANDAS"):
+                import pandas as pd
+
+                import fakesnow.fakes as fakes
+
+                _, tname, first, chunk = stmt.split()
+                ids = list(range(int(first), int(first) + 6))
+                fakes.write_pandas(conn, pd.DataFrame({"ID": ids, "S": [f"wp{i % 7}" for i in ids]}), tname, chunk_size=int(chunk))
+            else:
+                cur.execute(stmt)
             calls["armed"] = False
             _journal(jpath, f"ack {i}")
             if dry:
@@ -309,6 +321,8 @@ def _meta_of(state: dict) -> dict:
 def run_case(case: dict, env: core.Env) -> None:
     if case["kind"] == "in_memory":
         return _in_memory(case, env)
+    if case["kind"] == "two_sessions":
+        return _two_sessions(case, env)
     history = case["history"]
     base = tempfile.mkdtemp(prefix="fsverif-c18-")
     try:
@@ -413,6 +427,88 @@ def run_case(case: dict, env: core.Env) -> None:
 
 
 # ---------------------------------------------------------------------------
+def _child_two_sessions(case_dir: str, db_dir: str, order: list, mode: str) -> None:
+    """Two sessions of one patch(): overlapping transactions insert a common PRIMARY KEY value; what each was told is journaled."""
+    import snowflake.connector
+
+    import fakesnow
+
+    with fakesnow.patch(db_path=db_dir):
+        conns = [snowflake.connector.connect(database="db1", schema="s1") for _ in range(2)]
+        curs = [c.cursor() for c in conns]
+        curs[0].execute("CREATE TABLE ACCT (ID INT PRIMARY KEY, WHO INT)")
+        told: list[Any] = [[], []]
+        steps = [["BEGIN", "INSERT INTO ACCT VALUES (1, {i}), ({a}, {i}), ({b}, {i})", "COMMIT"] for _ in range(2)]
+        pos = [0, 0]
+        failed = [False, False]
+        for i in order:
+            if failed[i]:
+                continue
+            stmt = steps[i][pos[i]].format(i=i, a=10 + i, b=20 + i)
+            pos[i] += 1
+            try:
+                curs[i].execute(stmt)
+                told[i].append("ok")
+            except Exception as e:  # noqa: BLE001
+                told[i].append(f"failed: {type(e).__name__}")
+                failed[i] = True
+                try:
+                    curs[i].execute("ROLLBACK")
+                except Exception:  # noqa: BLE001
+                    pass
+        with open(os.path.join(case_dir, "told.json"), "w") as f:
+            json.dump(told, f)
+            f.flush()
+            os.fsync(f.fileno())
+        if mode == "os_exit":
+            os._exit(4)
+
+
+def _two_sessions(case: dict, env: core.Env) -> None:
+    import itertools
+
+    base = tempfile.mkdtemp(prefix="fsverif-c18t-")
+    try:
+        orders = sorted(set(itertools.permutations([0, 0, 0, 1, 1, 1])))
+        for n, order in enumerate(orders):
+            mode = "clean" if n % 2 == 0 else "os_exit"
+            cd = os.path.join(base, f"o{n}")
+            os.makedirs(os.path.join(cd, "db"))
+            how, code = _fork(_child_two_sessions, cd, os.path.join(cd, "db"), list(order), mode)
+            env.count("fault_runs")
+            if how == "timeout":
+                raise core.Inconclusive("two-session watchdog")
+            if not os.path.exists(os.path.join(cd, "told.json")):
+                err = ""
+                try:
+                    err = open(os.path.join(cd, "child_error.txt")).read()[-400:]
+                except OSError:
+                    pass
+                env.witness("C18/two-sessions/child-failed", f"{how} {code} order={order}: {err}")
+                return
+            told = json.load(open(os.path.join(cd, "told.json")))
+            how2, code2 = _fork(_child_recover, cd, os.path.join(cd, "db"), False)
+            env.count("cmp_reopen_ok")
+            if (how2, code2) != ("exit", 0):
+                env.witness("C18/reopen-failed/two-sessions", f"recovery child {how2} {code2} order={order}")
+                return
+            rec = json.load(open(os.path.join(cd, "recovered.json")))
+            rows = rec["state"]["rows"].get("DB1.S1.ACCT", {})
+            env.count("cmp_recovered_state")
+            for i in range(2):
+                mine = [k for k in rows if k.endswith(f", {i})")]
+                all_ok = told[i] == ["ok", "ok", "ok"]
+                if all_ok and len(mine) != 3:
+                    env.witness("C18/two-sessions/told-committed-but-rows-absent-after-restart",
+                                f"order={order} exit={mode}: session {i} was told {told[i]} but a later process finds {mine} of its rows (all: {sorted(rows)})")
+                if not all_ok and mine:
+                    env.witness("C18/two-sessions/told-failed-but-rows-present-after-restart", f"order={order} exit={mode}: session {i} told {told[i]}, later process finds {mine}")
+            env.nontrivial(("two_sessions", order, mode))
+            shutil.rmtree(cd, ignore_errors=True)
+    finally:
+        shutil.rmtree(base, ignore_errors=True)
+
+
 def _child_in_memory(case_dir: str, seed: int) -> None:
     import fakesnow.instance as inst
 
